@@ -64,24 +64,23 @@ Qed.
 Lemma take_app (v b : list Z) size :
   len v = size -> take size (v ++ b) = (v, b, false).
 Proof.
-  intros <-. unfold take. rewrite firstn_len_app, skipn_len_app.
-  rewrite len_app. replace (len v + len b <? len v) with false; [reflexivity|].
-  unfold len. lia.
+  intros <-. unfold take. cbv zeta. rewrite firstn_len_app, skipn_len_app.
+  replace (len v <? len v) with false by lia. reflexivity.
 Qed.
 
 Lemma take_parts (v b : list Z) size :
   len v = size ->
   firstn (Z.to_nat size) (v ++ b) = v /\ skipn (Z.to_nat size) (v ++ b) = b /\
-  (len (v ++ b) <? size) = false.
+  (len v <? size) = false.
 Proof.
-  intros <-. rewrite firstn_len_app, skipn_len_app, len_app.
-  pose proof (len_nonneg b). repeat split. lia.
+  intros <-. rewrite firstn_len_app, skipn_len_app.
+  repeat split. lia.
 Qed.
 
 Ltac take_solve v b L :=
   let T1 := fresh in let T2 := fresh in let T3 := fresh in
   destruct (take_parts v b _ L) as (T1 & T2 & T3);
-  unfold take; rewrite ?T1, ?T2, ?T3; clear T1 T2 T3.
+  unfold take; cbv zeta; rewrite ?T1, ?T2, ?T3; clear T1 T2 T3.
 
 Lemma enc_text_inv s bs : enc_text s = EOk bs -> map cp_dec bs = s /\ len bs = len s.
 Proof.
